@@ -31,17 +31,21 @@ enum WEv { Acc(usize), Pending, Err }
 #[derive(Default)]
 struct Shared { written: Vec<u8>, flushes: usize, shutdowns: usize }
 
-struct ScriptedTokio { revs: VecDeque<Ev>, wevs: VecDeque<WEv>, shared: Arc<Mutex<Shared>> }
+struct ScriptedTokio { revs: VecDeque<Ev>, wevs: VecDeque<WEv>, shared: Arc<Mutex<Shared>>, calls: usize }
 
 impl AsyncRead for ScriptedTokio {
     fn poll_read(mut self: Pin<&mut Self>, _: &mut Context<'_>, buf: &mut ReadBuf<'_>) -> Poll<io::Result<()>> {
+        // a tokio reader may fill the buffer in either of two ways: `put_slice`, or initialise the whole unfilled part first
+        // and then advance by what it read (so that initialised > filled, also at EOF). Every other call does the latter.
+        self.calls += 1;
+        let init_first = self.calls % 2 == 0;
         match self.revs.pop_front() {
-            None | Some(Ev::Eof) => Poll::Ready(Ok(())),
+            None | Some(Ev::Eof) => { if init_first { let _ = buf.initialize_unfilled(); } Poll::Ready(Ok(())) }
             Some(Ev::Pending) => Poll::Pending,
             Some(Ev::Err) => Poll::Ready(Err(io::Error::new(io::ErrorKind::ConnectionReset, "scripted"))),
             Some(Ev::Data(bs)) => {
                 let n = bs.len().min(buf.remaining());
-                buf.put_slice(&bs[..n]);
+                if init_first { let dst = buf.initialize_unfilled(); dst[..n].copy_from_slice(&bs[..n]); buf.advance(n); } else { buf.put_slice(&bs[..n]); }
                 if n < bs.len() { self.revs.push_front(Ev::Data(bs[n..].to_vec())); }
                 Poll::Ready(Ok(()))
             }
@@ -178,7 +182,7 @@ fn run_script(toks: &[&str]) -> String {
     for e in parse_evs(&parts[1]) { let stop = matches!(e, Ev::Eof | Ev::Err) || matches!(&e, Ev::Data(b) if b.is_empty()); revs.push_back(if matches!(&e, Ev::Data(b) if b.is_empty()) { Ev::Eof } else { e }); if stop { break; } }
     let wevs: VecDeque<WEv> = parts[2].iter().filter_map(|t| match t.as_bytes().first() {
         Some(b'p') => Some(WEv::Pending), Some(b'x') => Some(WEv::Err), Some(b'a') => t[1..].parse().ok().map(WEv::Acc), _ => None }).collect();
-    let inner = ScriptedTokio { revs, wevs, shared: shared.clone() };
+    let inner = ScriptedTokio { revs, wevs, shared: shared.clone(), calls: 0 };
     let Some(mut top) = build_stack(&parts[0], inner) else { return "bad-stack".into() };
     let res: Vec<String> = parts[3].iter().map(|op| do_op(&mut top, op)).collect();
     let sh = shared.lock().unwrap();
